@@ -68,7 +68,7 @@ def _table_shard(args):
 def _pool_map(fn, shards):
     if len(shards) == 1:
         return [fn(shards[0])]
-    with mp.get_context('fork').Pool(min(14, len(shards))) as pool:
+    with mp.get_context('fork').Pool(min(12, len(shards))) as pool:
         return pool.map(fn, shards)
 
 
@@ -78,7 +78,7 @@ def _pool_map(fn, shards):
 def validate(ctx, batch):
     """TLC trace validation with RawTrace; like ctx.validate, but `seen` also carries '@outcome/class' of every event."""
     try:
-        verd, st = tlc.run_traces(batch, module='RawTrace', cfg='RawTrace', timeout=3000, heap='6g')
+        verd, st = tlc.run_traces(batch, module='RawTrace', cfg='RawTrace', timeout=3000, heap='2g')
     except tlc.TLCError as e:
         raise common.Machinery(str(e)) from e
     with _LOCK:
@@ -105,7 +105,7 @@ def validate_all(ctx, results):
     def one(r):
         return r[0], r[1], validate(ctx, r[0])
 
-    with cf.ThreadPoolExecutor(max_workers=min(8, max(1, len(results)))) as ex:
+    with cf.ThreadPoolExecutor(max_workers=min(6, max(1, len(results)))) as ex:
         for r in ex.map(one, results):
             out.append(r)
     return out
@@ -178,7 +178,7 @@ def shard(specs, n):
 def gen_table(ctx, cfg):
     out = os.path.join(tlc.scratch(), f'rawgen-{cfg}.json')
     try:
-        r = tlc.run_model('RawGen', cfg, workers=1, coverage=False, timeout=1500, env={'OUT_FILE': out}, heap='6g')
+        r = tlc.run_model('RawGen', cfg, workers=1, coverage=False, timeout=1500, env={'OUT_FILE': out}, heap='2g')
     except tlc.TLCError as e:
         raise common.Machinery(str(e)) from e
     if r['violated']:
@@ -215,7 +215,7 @@ def run(ctx):
         try:
             # no -coverage (it slows this recursion-heavy model down by an order of magnitude): the vacuity guard is
             # the model's own POSTCONDITION AllKindsTaken (every call kind x outcome counted > 0), one worker
-            r = ctx.model('RawMC', 'RawMC' if ctx.quick else 'RawMC_thorough', workers=1, coverage=False, timeout=2400)
+            r = ctx.model('RawMC', 'RawMC' if ctx.quick else 'RawMC_thorough', workers=1, coverage=False, timeout=2400, heap='2g')
             m = re.search(r'<<"CALLS", <<([\d, ]+)>>>>', r['out'])
             if not m:
                 raise common.Machinery('RawMC: POSTCONDITION AllKindsTaken did not report')
@@ -234,7 +234,7 @@ def run(ctx):
     # G
     rows = gen_table(ctx, 'RawGen' if ctx.quick else 'RawGen_thorough')
     ctx.exhaustive = True
-    per = 1500
+    per = max(1500, -(-len(rows) // 6))
     shards = [(k, rows[i:i + per], 10_000_000 + i) for k, i in enumerate(range(0, len(rows), per))]
     gres = _pool_map(_table_shard, shards)
     phase['table_gen+exec_s'] = round(time.time() - t0, 1)
@@ -254,10 +254,10 @@ def run(ctx):
         other = 600
     for n, steps, profile, base in plan:
         specs = history_specs(ctx, n, steps, profile, base)
-        results += _pool_map(_hist_shard, shard(specs, 14))
+        results += _pool_map(_hist_shard, shard(specs, 6 if ctx.quick else 12))
     for k, mode in enumerate(('eval', 'single')):
         specs = history_specs(ctx, other, 5 if ctx.quick else 12, 'wild', 200_000 + k * 50_000, mode)
-        results += _pool_map(_hist_shard, shard(specs, 4))
+        results += _pool_map(_hist_shard, shard(specs, 1 if ctx.quick else 3))
 
     phase['drivers_done_s'] = round(time.time() - t0, 1)
     validated = validate_all(ctx, results)
